@@ -1,3 +1,5 @@
 -- every theorem module (built by setup.sh so that per-check builds are incremental)
 import NutsModel.Thm.C07
 import NutsModel.Thm.C01
+import NutsModel.Thm.C03
+import NutsModel.Thm.Sched
